@@ -1,20 +1,20 @@
 #!/bin/bash
 # usage: eval_seed.sh <ID> [property ...]   - confirm a seeded change (suite passes, demo fails with / passes without), run our checks on it
 id=$1; shift; props=${@:-$id}
-S=/var/tmp/seed/$id; O=/verif/seeded/$id
+S=${SEEDROOT:-/var/tmp/seed}/$id; O=/verif/seeded/$id${OUTSUFFIX:-}; oid=$id${OUTSUFFIX:-}
 mkdir -p $O; cp $S/out/patch.diff $O/; rm -rf $O/demo; cp -r $S/out/demo $O/ 2>/dev/null; cp $S/out/NOTES.md $O/ 2>/dev/null
 echo "== $id: suite with the change"; suite=$(python3 /var/tmp/seedtools/run_suite.py $S/wt 2>&1 | tail -1); echo "$suite"
-echo "== demo with the change"; (cd $S/out/demo && timeout 600 bash ./run.sh $S/wt > /tmp/demo_$id.with 2>&1); with=$?; tail -2 /tmp/demo_$id.with
+echo "== demo with the change"; (cd $S/out/demo && timeout 600 bash ./run.sh $S/wt > /tmp/demo_$oid.with 2>&1); with=$?; tail -2 /tmp/demo_$oid.with
 git -C $S/wt apply -R $S/out/patch.diff; cmake --build $S/wt/_build > /dev/null 2>&1
-echo "== demo without the change"; (cd $S/out/demo && timeout 600 bash ./run.sh $S/wt > /tmp/demo_$id.without 2>&1); without=$?; tail -2 /tmp/demo_$id.without
+echo "== demo without the change"; (cd $S/out/demo && timeout 600 bash ./run.sh $S/wt > /tmp/demo_$oid.without 2>&1); without=$?; tail -2 /tmp/demo_$oid.without
 git -C $S/wt apply $S/out/patch.diff; 
 echo "demo exit with=$with without=$without"
 res=""
 for p in $props; do r=$(/verif/tools/try_mutant.sh seed$id $O/patch.diff $p 2>&1 | grep MUTANT); echo "$r"; res="$res | $r"; done
-python3 - "$id" "$suite" "$with" "$without" "$res" <<'PY'
+python3 - "$oid" "$suite" "$with" "$without" "$res" <<'PY'
 import json,sys
 id,suite,w,wo,res=sys.argv[1:6]
-json.dump({'breaks_property':id,'origin':'independent sub-agent given only the property text and a scratch worktree','suite_with_change':suite,
+json.dump({'breaks_property':id.split('-')[0],'origin':'independent sub-agent given only the property text and a scratch worktree','suite_with_change':suite,
  'demo_exit_with_change':int(w),'demo_exit_without_change':int(wo),'our_checks':res.strip(' |'),
  'what_i_ran':['python3 run_suite.py <worktree with patch> (project suite, baseline list)','demo/run.sh <worktree> with and without the patch','tools/try_mutant.sh (vf <property> --tier quick against a scratch worktree of /repo HEAD + patch.diff)'],
  'needs_to_manifest':'see NOTES.md'},open('/verif/seeded/%s/meta.json'%id,'w'),indent=1)
